@@ -1,8 +1,10 @@
 package main
 
 import (
+	"fmt"
 	"go/ast"
 	"go/token"
+	"go/types"
 )
 
 func init() {
@@ -133,6 +135,7 @@ func checkC11(c *Ctx, r *Report) {
 	ruleParserProtocol(c, r, "parser-protocol")
 	ruleParserDrains(c, r, "parser-drains")
 	ruleNoAbruptExit(c, r, "no-abrupt-exit")
+	ruleFileHandedOver(c, r, "file-handed-over")
 	ruleLexerStops(c, r, "lexer-stops")
 	ruleFullRune(c, r, "empty-chunk-not-eof")
 	r.rule("single-receive", 1, "the lexer receives from its input channel at exactly one place (next)")
@@ -140,4 +143,179 @@ func checkC11(c *Ctx, r *Report) {
 	ruleChunkImmutable(c, r, "pipeline")
 	r.note("liveness under all goroutine schedules, 'within a few reads', behaviour under delays (needs a model checker: a different technique family); only the protocol shape is decided: who sends/receives/closes what, how often, on which paths")
 	r.assume("after a lexical failure or end of input the lexer goroutine stops receiving (rule lexer-stops); the parser consumes tokens up to a finaliser token (rule parser-drains; that every statement function returns to the toplevel loop is C06's parser-progress)")
+}
+
+// ruleFileHandedOver: InterpretFile and UnmarshalFile close their input by
+// handing it to ParseFile. That must happen on every path: a return (a
+// fail-fast check of the target, of an option) before the input was handed
+// on leaves it open, and "Close exactly once" fails with zero.
+func ruleFileHandedOver(c *Ctx, r *Report, rule string) {
+	r.rule(rule, 2, "InterpretFile and UnmarshalFile hand their input to ParseFile (through the file variants and their helpers) before any statement that can return: on every path the input reaches the one place that closes it")
+	_, pfd := c.find("ParseFile")
+	if pfd == nil {
+		r.bad(rule, "ParseFile", "function not found", "")
+		return
+	}
+	// the function that does ParseFile's work when ParseFile itself only delegates: the protocol rules look at that one
+	pfWork, _ := c.throughThinWrappers(pfd, 0)
+	memo := map[string]string{}
+	var handsOver func(fd *ast.FuncDecl, idx int, depth int) string // "" = yes, else why not
+	handsOver = func(fd *ast.FuncDecl, idx int, depth int) string {
+		if fd == pfd || fd == pfWork {
+			return ""
+		}
+		if depth > 4 || fd == nil || fd.Body == nil {
+			return "the chain of helpers is too deep to follow"
+		}
+		key := fmt.Sprintf("%p/%d", fd, idx)
+		if v, ok := memo[key]; ok {
+			return v
+		}
+		memo[key] = "recursive"
+		po := c.paramObj(fd, idx)
+		res := fmt.Sprintf("%s never hands its input on (%s)", fd.Name.Name, c.pos(fd.Pos()))
+		for _, st := range fd.Body.List {
+			// the statement that hands the input on: a call (not under a condition) with the input as an argument, or
+			// with a function literal that uses it
+			var found *ast.CallExpr
+			var calleeIdx int
+			viaLit := false
+			var top ast.Node = st
+			if ifs, isIf := st.(*ast.IfStmt); isIf {
+				top = ifs.Init // if x, err := InterpretFile(f); err != nil {…}: the init runs unconditionally
+			}
+			if top != nil {
+				ast.Inspect(top, func(n ast.Node) bool {
+					switch x := n.(type) {
+					case *ast.FuncLit, *ast.IfStmt, *ast.ForStmt, *ast.RangeStmt, *ast.SwitchStmt, *ast.TypeSwitchStmt, *ast.SelectStmt, *ast.GoStmt, *ast.DeferStmt:
+						_ = x
+						return n == top
+					case *ast.BinaryExpr:
+						if x.Op == token.LAND || x.Op == token.LOR {
+							return false // the right operand is conditional
+						}
+					case *ast.CallExpr:
+						if found != nil {
+							return true
+						}
+						for k, a := range x.Args {
+							if c.isObj(a, po) {
+								found, calleeIdx = x, k
+							} else if lit, isLit := stripParens(a).(*ast.FuncLit); isLit {
+								uses := false
+								ast.Inspect(lit.Body, func(y ast.Node) bool {
+									if id, isID := y.(*ast.Ident); isID && c.objOf(id) == po {
+										uses = true
+									}
+									return true
+								})
+								if uses {
+									found, calleeIdx, viaLit = x, k, true
+								}
+							}
+						}
+					}
+					return true
+				})
+			}
+			if found != nil {
+				fn, isFn := c.callee(found).(*types.Func)
+				if !isFn || fn.Pkg() == nil || fn.Pkg().Path() != bclPath || c.funcDecls[fn] == nil {
+					res = fmt.Sprintf("%s hands its input to %s, which is not a function of the module that can be followed (%s)", fd.Name.Name, types.ExprString(found.Fun), c.pos(found.Pos()))
+					break
+				}
+				hd := c.funcDecls[fn]
+				if viaLit {
+					// the helper must call the function it was given before it can return, and the literal must hand the
+					// input on in turn
+					lit := stripParens(found.Args[calleeIdx]).(*ast.FuncLit)
+					why := ""
+					fo := c.paramObj(hd, calleeIdx)
+					called := false
+					for _, hs := range hd.Body.List {
+						ast.Inspect(hs, func(y ast.Node) bool {
+							if call, isC := y.(*ast.CallExpr); isC && c.isObj(call.Fun, fo) {
+								called = true
+							}
+							return true
+						})
+						if called {
+							break
+						}
+						if c.canReturn(hs) {
+							why = fmt.Sprintf("%s can return before it calls the function it was handed (%s)", hd.Name.Name, c.pos(hs.Pos()))
+							break
+						}
+					}
+					if why == "" && !called {
+						why = fmt.Sprintf("%s never calls the function it was handed", hd.Name.Name)
+					}
+					if why == "" {
+						// inside the literal: the same rule, the literal's body standing for a function
+						tmp := &ast.FuncDecl{Name: ast.NewIdent(fd.Name.Name + "$lit"), Type: &ast.FuncType{Params: fd.Type.Params}, Body: lit.Body}
+						why = handsOver(tmp, idx, depth+1)
+					}
+					res = why
+					break
+				}
+				res = handsOver(hd, calleeIdx, depth+1)
+				break
+			}
+			if c.canReturn(st) {
+				res = fmt.Sprintf("%s can return at %s before its input was handed to ParseFile: the input is never closed on that path", fd.Name.Name, c.pos(st.Pos()))
+				break
+			}
+		}
+		memo[key] = res
+		return res
+	}
+	for _, name := range []string{"InterpretFile", "UnmarshalFile"} {
+		_, fd := c.find(name)
+		if fd == nil {
+			r.bad(rule, name, "function not found", "")
+			continue
+		}
+		idx := -1
+		if fd.Type.Params != nil {
+			k := 0
+			for _, f := range fd.Type.Params.List {
+				for range f.Names {
+					if isNamed(c.typeOf(f.Type), bclPath, "FileInput") && idx < 0 {
+						idx = k
+					}
+					k++
+				}
+			}
+		}
+		if idx < 0 {
+			r.bad(rule, name, "no FileInput parameter", c.pos(fd.Pos()))
+			continue
+		}
+		why := handsOver(fd, idx, 0)
+		r.check(why == "", rule, name, "the input reaches ParseFile before any return", why, c.pos(fd.Pos()))
+	}
+}
+
+// canReturn: the statement contains a return, a goto or a call that does not come back (outside function literals).
+func (c *Ctx) canReturn(st ast.Stmt) bool {
+	found := false
+	ast.Inspect(st, func(n ast.Node) bool {
+		switch x := n.(type) {
+		case *ast.FuncLit:
+			return false
+		case *ast.ReturnStmt:
+			found = true
+		case *ast.BranchStmt:
+			if x.Tok == token.GOTO {
+				found = true
+			}
+		case *ast.CallExpr:
+			switch c.calleeName(x) {
+			case "panic", "os.Exit", "runtime.Goexit", "log.Fatal", "log.Fatalf", "log.Fatalln":
+				found = true
+			}
+		}
+		return true
+	})
+	return found
 }
